@@ -51,6 +51,7 @@ class RecordDecl:
     mutable: dict = field(default_factory=dict)
     immutable: dict = field(default_factory=dict)
     pure: dict = field(default_factory=dict)
+    ctor: dict = field(default_factory=dict)          # initial values of mutable fields for `Cls()`; presence enables the constructor
 
 
 @dataclass
@@ -75,6 +76,7 @@ class Contract:
     display: tuple = ()                       # names of display-only locals (statements writing only these are dropped)
     locals: dict = field(default_factory=dict)        # local name -> type string where inference needs help
     abstract: bool = False                    # contract of an abstract method (no body to verify)
+    varargs: bool = False                     # extra positional/keyword arguments at call sites are ignored (opaque)
     cand_locals: tuple = ()                   # locals that candidates may mention besides __done__/__ret__
     ghost_yield: dict = field(default_factory=dict)
     rely_ensures: list = field(default_factory=list)
@@ -108,6 +110,7 @@ class Registry:
         self.isinstance_tests: dict[tuple, str] = {}   # (sort, class name) -> spec expression over x
         self.identity_sorts: tuple = ('Inst',)
         self.file_sorts: tuple = ()
+        self.const_names: dict = {}               # module-level names used as opaque values: name -> sort
 
     # -- declaration helpers (used by sidecar files) -----------------------
     def enum(self, name, members):
